@@ -7,10 +7,12 @@ import (
 	"fmt"
 	"os"
 	"os/exec"
+	"os/signal"
 	"path/filepath"
 	"sort"
 	"strings"
 	"sync"
+	"syscall"
 	"testing"
 	"time"
 
@@ -148,7 +150,31 @@ func c20DropF04(d map[string]any, targets map[string]bool) map[string]any {
 	return out
 }
 
-func (c *c20m) applyBackup() {
+// c20VolumeFull runs f while no file of this process can grow beyond size bytes (RLIMIT_FSIZE, the
+// signal that comes with it ignored): every append to the backup file fails as on a full volume.
+// The store's own files are pre-allocated and memory-mapped; nothing else writes during f.
+func c20VolumeFull(size int64, f func()) {
+	var old syscall.Rlimit
+	if err := syscall.Getrlimit(syscall.RLIMIT_FSIZE, &old); err != nil {
+		f()
+		return
+	}
+	signal.Ignore(syscall.SIGXFSZ)
+	defer signal.Reset(syscall.SIGXFSZ)
+	if err := syscall.Setrlimit(syscall.RLIMIT_FSIZE, &syscall.Rlimit{Cur: uint64(size), Max: old.Max}); err != nil {
+		f()
+		return
+	}
+	defer func() { _ = syscall.Setrlimit(syscall.RLIMIT_FSIZE, &old) }()
+	kit.S().AddExtra("backup runs on a full volume", 1)
+	f()
+}
+
+func (c *c20m) applyBackup() { c.applyBackupX(false) }
+
+// volumeFull (native mode): the run cannot append to the backup file. It either fails - then it is
+// not a completed run - or it returns normally, and then it counts as completed like any other.
+func (c *c20m) applyBackupX(volumeFull bool) {
 	g := c.g
 	exists := false
 	if _, err := os.Stat(filepath.Join(c.loc, "datahub-backup.kv")); err == nil {
@@ -159,13 +185,22 @@ func (c *c20m) applyBackup() {
 		kit.S().Exclude("F18")
 		return
 	}
-	g.record(Op{K: "backup"})
+	g.record(Op{K: "backup", Lo: volumeFull})
 	snap := kit.Dump(g.h.Hub)
 	f04 := c.f04Targets()
 	if c.rsync {
 		c.ageStoreFiles()
 	}
-	p := c20Recover(c.bm.Run)
+	run := c.bm.Run
+	if volumeFull && !c.rsync {
+		var size int64
+		if st, err := os.Stat(filepath.Join(c.loc, "datahub-backup.kv")); err == nil {
+			size = st.Size()
+		}
+		run = func() { c20VolumeFull(size, c.bm.Run) }
+		g.cls["backup-run-on-a-full-volume"] = true
+	}
+	p := c20Recover(run)
 	if p != "" {
 		// not completed; the hub process would be gone: restart it
 		g.cls["backup-panicked"] = true
@@ -297,12 +332,16 @@ func c20Files(dir string) map[string]string {
 
 // applyForeign: another store (own DATAHUB_BACKUPID) is aimed at the location
 // that belongs to the source store.
-func (c *c20m) applyForeign() {
+// variant: what BACKUP_SOURCE_LOCATION of the second hub says - 0 unset, 1 its own store's
+// directory, 2 the directory of the store the location belongs to (a configuration copied from the
+// first hub, or left over after a store was moved).
+func (c *c20m) applyForeign(variant int) {
 	g := c.g
 	if c.runs == 0 {
 		return // the location does not belong to anybody yet
 	}
-	g.record(Op{K: "foreign"})
+	g.record(Op{K: "foreign", N: variant})
+	g.cls[fmt.Sprintf("foreign-source-location-variant-%d", variant)] = true
 	other := kit.NewHub(kit.HubOpts{})
 	defer other.Close()
 	if _, err := other.Dsm.CreateDataset("x", nil); err != nil {
@@ -312,7 +351,14 @@ func (c *c20m) applyForeign() {
 		g.fail("VERIF-INFRA write in second store: %v", err)
 	}
 	before := c20Files(c.loc)
-	bm, err := server.NewBackupManager(other.Store, c.env(other.Env.StoreLocation))
+	env := c.env(other.Env.StoreLocation)
+	switch variant {
+	case 1:
+		env.BackupSourceLocation = other.Env.StoreLocation
+	case 2:
+		env.BackupSourceLocation = g.h.Env.StoreLocation
+	}
+	bm, err := server.NewBackupManager(other.Store, env)
 	refused := "constructor refused"
 	if err == nil && bm != nil {
 		refused = c20Recover(bm.Run)
@@ -368,12 +414,21 @@ func c20Actions(c *c20m) map[string]func(*rapid.T) {
 		}
 		c.applyRestore()
 	}
+	if !c.rsync {
+		acts["backupVolumeFull"] = func(t *rapid.T) {
+			g.t = t
+			if rapid.IntRange(0, 1).Draw(t, "rare") != 0 {
+				t.Skip("rare")
+			}
+			c.applyBackupX(true)
+		}
+	}
 	acts["foreign"] = func(t *rapid.T) {
 		g.t = t
 		if c.runs == 0 || rapid.IntRange(0, 2).Draw(t, "rare") != 0 {
 			t.Skip("rare")
 		}
-		c.applyForeign()
+		c.applyForeign(rapid.IntRange(0, 2).Draw(t, "sourceLocation"))
 	}
 	return acts
 }
